@@ -35,6 +35,9 @@ def cases(tier, seed):
     for ds in ("ArrowHead", "GunPoint"):
         yield {"kind": "formats", "name": ds}
     rng = np.random.default_rng([seed, 18])
+    for i in range(60 if tier == "quick" else 2500):
+        yield {"kind": "formats-generated", "ni": int(rng.integers(1, 9)), "nt": int(rng.integers(2, 20)), "family": ["ints", "relative", "magnitudes", "plain"][i % 4],
+               "labelkind": ["str", "int"][int(rng.integers(0, 2))], "final_newline": bool(rng.random() < 0.5), "dseed": int(rng.integers(0, 2 ** 31)), "i": i}
     n = 350 if tier == "quick" else 10000
     for i in range(n):
         yield {"kind": "roundtrip", "ni": int(rng.integers(1, 21)), "nt": int(rng.integers(1, 61)),
@@ -43,11 +46,71 @@ def cases(tier, seed):
                "nan": [None, None, "NaN", "?"][int(rng.integers(0, 4))], "rowidx": ["default", "default", "permuted", "offset", "strings"][int(rng.integers(0, 5))], "dseed": int(rng.integers(0, 2 ** 31)), "i": i}
 
 
+def _formats_generated(case, ctx):
+    """one generated univariate equal-length panel written as .ts (library writer), .arff and UCR .tsv (plain text, written here):
+    the three loaders must return the same values and labels, exactly as written"""
+    from sktime.utils.data_io import (load_from_arff_to_dataframe, load_from_tsfile_to_dataframe, load_from_ucr_tsv_to_dataframe,
+                                      write_dataframe_to_tsfile)
+    rng = np.random.default_rng([case["dseed"], 1818])
+    ni, nt = case["ni"], case["nt"]
+    fam = case["family"]
+    if fam == "ints":
+        A = rng.integers(-500, 500, size=(ni, nt)).astype(float)
+    elif fam == "relative":
+        A = np.cumsum(rng.normal(0, 1, size=(ni, nt)), axis=1)
+        A = A - A[:, :1]                  # every series starts at exactly 0 (written as "0")
+    elif fam == "magnitudes":
+        A = rng.normal(0, 1, size=(ni, nt)) * 10.0 ** rng.integers(-40, 4, size=(ni, nt))
+        A[:, 0] = np.round(A[:, 0])
+    else:
+        A = rng.normal(0, 10, size=(ni, nt))
+    labels = [["a", "b", "c"][i % 3] for i in range(ni)] if case["labelkind"] == "str" else [str(1 + i % 2) for i in range(ni)]
+    fmt = lambda v: ("%d" % v) if float(v).is_integer() and abs(v) < 1e15 else repr(float(v))  # noqa: integers without a decimal point
+    base = os.path.join(os.environ.get("VMON_HOME", "/verif"), ".cache", "c18", "gen-%d-%d" % (os.getpid(), case["i"]))
+    shutil.rmtree(base, ignore_errors=True)
+    os.makedirs(base)
+    try:
+        X = pd.DataFrame({"dim_0": [pd.Series(A[i]) for i in range(ni)]})
+        write_dataframe_to_tsfile(X, base, problem_name="Gen", class_label=sorted(set(labels)), class_value_list=np.array(labels), equal_length=True, series_length=nt)
+        ts_path = os.path.join(base, "Gen", "Gen_transform.ts")
+        with open(os.path.join(base, "Gen.tsv"), "w") as fo:
+            fo.write("\n".join("\t".join([labels[i]] + [fmt(v) for v in A[i]]) for i in range(ni)) + ("\n" if case["final_newline"] else ""))
+        with open(os.path.join(base, "Gen.arff"), "w") as fo:
+            fo.write("@relation Gen\n" + "".join("@attribute att%d numeric\n" % t for t in range(nt)) + "@attribute target {%s}\n@data\n" % ",".join(sorted(set(labels))))
+            fo.write("\n".join(",".join([fmt(v) for v in A[i]] + [labels[i]]) for i in range(ni)) + ("\n" if case["final_newline"] else ""))
+        got = {}
+        for name, loader, path in (("ts", load_from_tsfile_to_dataframe, ts_path), ("arff", load_from_arff_to_dataframe, os.path.join(base, "Gen.arff")),
+                                   ("tsv", load_from_ucr_tsv_to_dataframe, os.path.join(base, "Gen.tsv"))):
+            ok, r = ctx.call("formats-generated:%s-exception" % name, loader, path)
+            if ok:
+                got[name] = r
+        for name, (Xg, yg) in got.items():
+            V = np.array([np.asarray(Xg.iloc[i, 0], dtype=float) for i in range(len(Xg))]) if len(Xg) == ni else None
+            # equal up to the last bits (pandas' default text-to-float conversion and the writer's repr are not exactly round-tripping)
+            # .arff / .tsv are written here with repr (exact up to the last bits of the text conversion); the library's .ts writer prints a fixed
+            # number of decimals: same allowance as in the round-trip cases (relative to the series' magnitude)
+            rt = 1e-12
+            tolm = (2e-6 * np.maximum(np.abs(A).max(axis=1, keepdims=True), 1e-300) + 5e-7) if name == "ts" else rt * np.abs(A)
+            same = V is not None and V.shape == A.shape and bool(np.all(np.abs(V - A) <= tolm))
+            ctx.check("cross-format", same, "cross-format:generated:%s-values-differ-from-what-the-file-holds" % name,
+                      "the .%s loader does not return the values written in the file" % name, family=fam,
+                      first_difference=None if V is None or V.shape != A.shape else [(int(i), int(t), float(V[i, t]), float(A[i, t])) for i, t in zip(*np.nonzero(np.abs(V - A) > tolm))][:3])
+            ctx.check("cross-format", [str(v) for v in yg] == labels, "cross-format:generated:%s-labels-differ" % name, "the .%s loader does not return the labels written in the file" % name,
+                      got=[str(v) for v in yg][:6], expected=labels[:6])
+        ctx.event(kind="formats-generated", ni=ni, nt=nt, family=fam, loaders=sorted(got))
+        ctx.tag("generated:" + fam)
+        ctx.nontrivial = len(got) == 3
+    finally:
+        shutil.rmtree(base, ignore_errors=True)
+
+
 def run_case(case, ctx):
     import warnings
     warnings.simplefilter("ignore")
     if case["kind"] == "roundtrip":
         return _roundtrip(case, ctx)
+    if case["kind"] == "formats-generated":
+        return _formats_generated(case, ctx)
     if case["kind"] == "formats":
         return _formats(case, ctx)
     return _dataset(case, ctx)
